@@ -339,6 +339,69 @@ theorem more_protocol (e : Env) (cfg : Cfg) (chunks : List Str) (s : Str) (allow
 example : runMores [1, 2] [(⟨[], [], ['c']⟩ : Out), ⟨[], [], ['b']⟩, ⟨[], [], ['a']⟩] =
     ([[⟨[], [], ['a']⟩], [⟨[], [], ['b']⟩, ⟨[], [], ['c']⟩]], []) := by decide
 
+/-! ## several requesters: the shared `_mores` dictionary -/
+
+/-- Non-interference.  Along ANY trace of replies, `more` and `more <nick>` commands by any number of
+requesters, what the requester with `user@host` key `a` is answered is exactly what he would be
+answered if nobody else had done anything — provided his own actions are replies and plain `more`s.
+(`more <nick>` by somebody else works on a copy; every reply allocates a fresh list; two different
+`user@host` never share a list object — the invariant `Mores.WF`.) -/
+theorem two_requesters (m : Mores) (hwf : m.WF) (a : Str) (acts : List Act)
+    (hown : ∀ act ∈ acts, act.key = a → act.own = true) :
+    (m.run acts).filter (fun r => r.1 = a) = m.run (acts.filter fun act => act.key = a) :=
+  run_filter a acts m m hwf hwf rfl hown
+
+/-- The protocol theorem for interleavings: `stored` is what a chunked reply left in `_mores` for
+`nick!mask`; whatever the other requesters do meanwhile — including `more <nick>` on this very reply —
+the successive plain `more`s of the requester are answered, in order and each exactly once, with the
+batches `runMores` computes on `stored` alone (see `more_protocol` for what these batches are), then
+with "there is no more". -/
+theorem more_protocol_interleaved (m : Mores) (hwf : m.WF) (mask nick : Str) (priv : Bool) (stored : List Out)
+    (acts : List Act)
+    (hplain : ∀ act ∈ acts, act.key = ircLower mask → act.plain = true) :
+    ((m.store mask nick priv stored).run acts).filter (fun r => r.1 = ircLower mask) =
+      (runMores ((acts.filter fun act => act.key = ircLower mask).map Act.number) stored).1.map
+        fun b => (ircLower mask, moreAnswer b) := by
+  have hwf' : (m.store mask nick priv stored).WF := bindFresh_wf hwf _ stored
+  have hown : ∀ act ∈ acts, act.key = ircLower mask → act.own = true := by
+    intro act hact hk
+    have := hplain act hact hk
+    cases act with
+    | store _ _ _ _ => simp [Act.plain] at this
+    | more _ nk _ => cases nk <;> simp_all [Act.plain, Act.own]
+  rw [two_requesters _ hwf' (ircLower mask) acts hown]
+  apply run_plain (ircLower mask) _ _ stored hwf'
+  · rw [(store_eq m mask nick priv stored).2]; exact bindFresh_listOf_self _ _ _
+  · intro act hact
+    obtain ⟨h1, h2⟩ := List.mem_filter.mp hact
+    have hk : act.key = ircLower mask := by simpa using h2
+    exact ⟨hk, hplain act h1 hk⟩
+
+/-- what `more <nick>` gives the caller: a copy of the list stored under `<nick>`, as it is now -/
+theorem adopt_copy (m m' : Mores) (mask nick : Str) (id : Nat)
+    (hn : lookupKey (ircLower nick) m.byNick = some (false, id)) (h : m.adopt mask nick = .ok m') :
+    m'.listOf (ircLower mask) = some (m.lists.getD id []) := by
+  unfold Mores.adopt at h
+  rw [hn] at h
+  simp only [Bool.false_eq_true, ↓reduceIte] at h
+  injection h with h; subst h
+  simp [Mores.listOf, lookupKey_cons, List.getD]
+
+def o1 : Out := ⟨[], [], ['1']⟩
+def o2 : Out := ⟨[], [], ['2']⟩
+def o3 : Out := ⟨[], [], ['3']⟩
+def exActs : List Act :=
+  [.more "bo@b".toList (some "ALICE".toList) 1, .more "al@a".toList none 1, .more "bo@b".toList none 1,
+   .more "al@a".toList none 2, .more "al@a".toList none 1]
+
+/-- alice has messages 1,2,3 pending (stack `[3,2,1]`); bob peeks with `more ALICE`, then both go on:
+alice still gets 1, then 2 3, then "no more"; bob gets 1 then 2 -/
+example : (({} : Mores).store "al@a".toList "Alice".toList false [o3, o2, o1]).run exActs =
+    [("bo@b".toList, some (.sent [o1])), ("al@a".toList, some (.sent [o1])), ("bo@b".toList, some (.sent [o2])),
+     ("al@a".toList, some (.sent [o2, o3])), ("al@a".toList, some .noMore)] := by decide
+
+example : ∀ act ∈ exActs, act.key = ircLower "al@a".toList → act.plain = true := by decide
+
 /-! ## the text itself -/
 
 /-- For a reply without formatting codes, nothing is lost and nothing invented: the chunks are lines
